@@ -1203,12 +1203,14 @@ def _peptide_lines():
 
 
 def complex_pdb(mol, names, extras, with_ligand=True, lig_res="LIG",
-                copies=1):
+                copies=1, serial0=100):
     """PDB text and the list of hetero atoms written (res_name, seq, name)."""
     from ..pdbfmt import atom_line
 
     lines = _peptide_lines()
-    serial = 100
+    # serial0 = 0: the hetero records restart their numbering at 1 (a ligand
+    # pasted into the file), colliding with the serials of the peptide
+    serial = serial0
     cx = sum(c[0] for c in mol.coords) / mol.n
     cy = sum(c[1] for c in mol.coords) / mol.n
     cz = sum(c[2] for c in mol.coords) / mol.n
@@ -1300,7 +1302,7 @@ def check_complex_cell(case, rec):
                 names = make_names(mol, naming)
             one = {"mode": "complex", "ff": ff, "extras": extras,
                    "ligands": [lig], "namings": [naming]}
-            for k in ("mol2_resname", "lig_resname", "copies"):
+            for k in ("mol2_resname", "lig_resname", "copies", "serial0"):
                 if k in case:
                     one[k] = case[k]
             tag = f"{naming}"
@@ -1320,7 +1322,8 @@ def check_complex_cell(case, rec):
                               {"ligand": lig, "message": str(exc)[:200]}, one)
                 continue
             text = complex_pdb(mol, names, extras, lig_res=lig_res,
-                               copies=copies)
+                               copies=copies,
+                               serial0=case.get("serial0", 100))
             captured = []
 
             def grab(args, kwargs):
@@ -1613,6 +1616,10 @@ def enumerate_cases(tier, seed):
         cases.append({"mode": "complex", "ff": "AMBER", "extras": ex,
                       "ligands": ["methanol", "methylammonium"],
                       "namings": ["private", "elem-index"], "copies": 2})
+    for ex in ([], ["W1"], ["W1", "XYZ", "ZN"]):
+        cases.append({"mode": "complex", "ff": "AMBER", "extras": ex,
+                      "ligands": ["methanol", "acetate"],
+                      "namings": ["elem-index", "private"], "serial0": 0})
     for ff, entry in FF_HETERO_ENTRIES:
         for ex in ([], ["W1"], ["W1", "XYQ"]):
             cases.append({"mode": "complex", "ff": ff, "extras": ex,
